@@ -94,6 +94,11 @@ func GenSpellingGroup(r *rand.Rand, p Profile) *spellingGroup {
 		if emptyValue {
 			v = ""
 		}
+		// bytes that are not valid UTF-8 are a value like any other (a Latin-1 file name, binary data): every
+		// spelling delivers them unchanged
+		if !emptyValue && (o.code == "str" || o.code == "Lstr" || o.code == "Pstr") && len(o.choices) == 0 && r.Intn(6) == 0 {
+			v = []string{"caf\xe9.txt", "\xff\xfe", "a\xc3", "\x80x", "x\xed\xa0\x80y", "\xf8\x88"}[r.Intn(6)]
+		}
 		// surrounding tokens: occurrences of other root options and plain words, no command words
 		var pre, post []string
 		// self-contained occurrences only (flags and inline-argument forms), so that no
@@ -343,6 +348,121 @@ func checkC02Clusters(c *Ctx, n int, p Profile) {
 				in["case_file_b"] = c.saveCase(results[j])
 			}
 			c.Check("cluster-equals-separate-flags", ok, "C02:cluster-differs", in, keys[j], keys[0])
+		}
+		c.Distinct(results[0].Case.Description)
+	}
+}
+
+// checkC02Shadow: spellings below a command that REDECLARES a short name of an outer level with the other
+// arity — the outer level's -v takes an argument and the command's -v is a flag (then -vfx, -vv are clusters
+// of the command's flags and equal -v -f -x, -v -v), or the outer -v is a flag and the command's -v takes an
+// argument (then -vVAL, -v=VAL, -v VAL and --name=VAL are one occurrence).  In front of the command word the
+// outer declaration decides.
+func checkC02Shadow(c *Ctx, n int) {
+	r := c.Rng
+	shorts := []string{"v", "é", "x", "字"}
+	for i := 0; i < n; i++ {
+		sh := shorts[r.Intn(len(shorts))]
+		outerTakesArg := r.Intn(2) == 0
+		argTy := []string{"str", "int", "Lstr"}[r.Intn(3)]
+		flagTy := []string{"bool", "Lbool"}[r.Intn(2)]
+		outerTy, innerTy := flagTy, argTy
+		if outerTakesArg {
+			outerTy, innerTy = argTy, flagTy
+		}
+		depth := 1 + r.Intn(2)
+		holder := r.Intn(depth)
+		inner := &StructDesc{Fields: []FieldDesc{
+			{Name: "InnerV", Exported: true, Kind: "v", Ty: innerTy, Tag: fmt.Sprintf(`short:"%s" long:"inner"`, sh)},
+			{Name: "F", Exported: true, Kind: "v", Ty: "bool", Tag: `short:"f"`},
+			{Name: "G", Exported: true, Kind: "v", Ty: "Lbool", Tag: `short:"g"`}}}
+		sd := inner
+		path := []string{}
+		for l := depth; l >= 1; l-- {
+			st := &StructDesc{}
+			if holder == l-1 {
+				st.Fields = append(st.Fields, FieldDesc{Name: "OuterV", Exported: true, Kind: "v", Ty: outerTy, Tag: fmt.Sprintf(`short:"%s" long:"outer"`, sh)})
+			}
+			st.Fields = append(st.Fields, FieldDesc{Name: fmt.Sprintf("Q%d", l), Exported: true, Kind: "v", Ty: "bool", Tag: fmt.Sprintf(`short:"%c"`, 'p'+l)})
+			st.Fields = append(st.Fields, FieldDesc{Name: fmt.Sprintf("C%d", l), Exported: true, Kind: "s", Sub: sd, Tag: fmt.Sprintf(`command:"cmd%d"`, l)})
+			sd = st
+			path = append([]string{fmt.Sprintf("cmd%d", l)}, path...)
+		}
+		base := &Case{Name: "app", NsDelim: ".", EnvNsDelim: "_"}
+		base.Build = []BuildOp{{Kind: "addgroup", Target: 1, Short: "Application Options", Struct: sd}}
+		val := []string{"7", "42", "0"}[r.Intn(3)]
+		var forms [][]string
+		var labels []string
+		if outerTakesArg {
+			// below the command: clusters of the command's flags
+			others := []string{"f", "g", "g", "q"}
+			k := 1 + r.Intn(3)
+			cl := []string{sh}
+			for j := 0; j < k; j++ {
+				cl = append(cl, append(others, sh)[r.Intn(len(others)+1)])
+			}
+			if r.Intn(3) == 0 {
+				cl = []string{sh, sh}
+			}
+			joined := "-" + strings.Join(cl, "")
+			var sep []string
+			for _, x := range cl {
+				sep = append(sep, "-"+x)
+			}
+			forms = [][]string{{joined}, sep, {"-" + cl[0], "-" + strings.Join(cl[1:], "")}}
+			labels = []string{"-abc", "-a -b -c", "-a -bc"}
+		} else {
+			forms = [][]string{{"-" + sh + val}, {"-" + sh + "=" + val}, {"-" + sh, val}, {"--inner=" + val}, {"--inner", val}}
+			labels = []string{"-xV", "-x=V", "-x V", "--name=V", "--name V"}
+		}
+		// what is typed in front of the command words: nothing, or the outer option in its own arity
+		var front []string
+		if r.Intn(2) == 0 {
+			if outerTakesArg {
+				front = []string{"-" + sh + val}
+			} else {
+				front = []string{"-" + sh}
+			}
+		}
+		var cases []*Case
+		for j, f := range forms {
+			cc := *base
+			var argv []string
+			for l, w := range path {
+				if l == holder {
+					argv = append(argv, front...)
+				}
+				argv = append(argv, w)
+			}
+			argv = append(argv, f...)
+			cc.Ops = []Op{{Kind: "parse", Args: argv}}
+			cc.Description = fmt.Sprintf("shadowed short name, spelling %s: %q", labels[j], argv)
+			cases = append(cases, &cc)
+		}
+		var results []*CaseResult
+		c.RunCases(cases, func(cr *CaseResult) { results = append(results, cr) })
+		c.Class(fmt.Sprintf("c02/shadow: outer-takes-arg=%v depth=%d holder=%d", outerTakesArg, depth, holder))
+		var keys []string
+		var errs []string
+		for _, cr := range results {
+			obs := parseBlocks(cr)
+			if len(obs) != 1 || obs[0].panic != "" {
+				keys = append(keys, "PANIC-or-missing")
+				errs = append(errs, "panic")
+				continue
+			}
+			keys = append(keys, outcomeKey(obs[0]))
+			errs = append(errs, obs[0].errKind)
+		}
+		for j := 0; j < len(keys); j++ {
+			// all forms must succeed (the values are convertible, the flags declared) and agree
+			ok := keys[j] == keys[0] && errs[j] == "ok"
+			in := map[string]interface{}{"a": results[0].Case.Description, "b": results[j].Case.Description}
+			if !ok {
+				in["case_file_a"] = c.saveCase(results[0])
+				in["case_file_b"] = c.saveCase(results[j])
+			}
+			c.Check("spellings-interchangeable-below-a-command-that-redeclares-the-short-name", ok, "C02:shadowed-spelling-differs:"+labels[j], in, errs[j]+" "+keys[j], "ok "+keys[0])
 		}
 		c.Distinct(results[0].Case.Description)
 	}
